@@ -48,7 +48,10 @@ def step (st : Option Forest) (line : String) : Option Forest × String :=
       match resolveLinks D with
       | .error e => (none, "ERR " ++ showErr e)
       | .ok F =>
-        if !F.traceable then (none, "ERR untraceable") else
+        match traceError F with
+        | some .underLoop => (none, "ERR underLoop")
+        | some .diverge => (none, "ERR untraceable")
+        | none =>
         let frames := (List.range n).map fun f =>
           showOpt (F.over f) ++ "/" ++ showList (F.unders f) ++ "/"
             ++ showList ((traceHead F f).getD []) ++ "/" ++ showList ((traceOutline F f).getD [])
